@@ -212,7 +212,7 @@ func ruleP5c(c *Ctx) {
 		fi := c.fi(fn)
 		var pc ssa.Instruction
 		allInstrs(fn, func(in ssa.Instruction) {
-			if call, ok := in.(*ssa.Call); ok && call.Call.StaticCallee() != nil && call.Call.StaticCallee().Name() == "processClause" {
+			if call, ok := in.(*ssa.Call); ok && call.Call.StaticCallee() != nil && fnName(call.Call.StaticCallee()) == "processClause" {
 				pc = in
 			}
 		})
@@ -423,7 +423,7 @@ func ruleTB1(c *Ctx) {
 		var ab, mb []ssa.Instruction
 		allInstrs(fn, func(in ssa.Instruction) {
 			if mu, ok := in.(*ssa.MapUpdate); ok {
-				if f := fieldOfLoad(mu.Map); f != nil && f.Name() == "mbs" {
+				if f := fieldOfLoad(mu.Map); f != nil && fieldCanon(f) == "mbs" {
 					mb = append(mb, in)
 				}
 				return
